@@ -129,7 +129,7 @@ class Encoder:
         elif k == "X":
             self.code("S")
         elif k == "i":
-            self.w_int(int(t[1]), flag)
+            self.w_int(int(t[1], 0), flag)
             reserve()
         elif k == "f":
             f = struct.unpack(">d", unhx(t[1]))[0]
